@@ -108,6 +108,53 @@ def graph_case(draw, max_tasks=8, min_tasks=1, kinds=("cmd", "exp", "group", "co
     return case
 
 
+@st.composite
+def layered_case(draw, max_width=4, max_layers=3, jobs=(2, 3, 3, 4, 5), p_fail_den=4, tape_max=60, tape_hi=31,
+                 flags=()):
+    """Layered, mostly parallelizable graphs: root group -> layer 1 -> layer 2 ...;
+    several tasks become ready at the same moment, some of them fail."""
+    pkgs = draw(st.sampled_from(PKG_SETS))
+    nl = draw(st.sampled_from(range(2, max_layers + 1)))
+    widths = [draw(st.sampled_from(range(1, max_width + 1))) for _ in range(nl)]
+    tasks = [{"pkg": 0, "name": "root0", "kind": draw(st.sampled_from(["group", "cmd", "combine"])), "deps": [], "par": True}]
+    layers = []
+    for w in widths:
+        layer = []
+        for _ in range(w):
+            i = len(tasks)
+            tasks.append({"pkg": draw(st.sampled_from(range(len(pkgs)))), "name": "t%d" % i,
+                          "kind": draw(st.sampled_from(["cmd", "cmd", "exp"])), "deps": [],
+                          "par": draw(st.sampled_from([True] * 7 + [False]))})
+            layer.append(i)
+        layers.append(layer)
+    tasks[0]["deps"] = [[i, "abs"] for i in layers[0]]
+    for k in range(len(layers) - 1):
+        below = layers[k + 1]
+        for i in layers[k]:
+            mask = draw(_mask(len(below)))
+            deps = [j for b, j in enumerate(below) if (mask >> b) & 1]
+            if len(deps) > 1:
+                deps = list(draw(st.permutations(deps)))
+            tasks[i]["deps"] = [[j, draw(st.sampled_from(["rel", "abs"]))] for j in deps]
+        # make sure every task of the lower layer is needed by someone
+        for j in below:
+            if not any(j in [d[0] for d in tasks[i]["deps"]] for i in layers[k]):
+                tasks[draw(st.sampled_from(layers[k]))]["deps"].append([j, "abs"])
+    case = {"pkgs": pkgs, "tasks": tasks, "target": 0, "seeded": {}}
+    case["jobs"] = draw(st.sampled_from(list(jobs)))
+    case["flags"] = [f for f in flags if draw(st.sampled_from([0, 0, 0, 1]))]
+    oc = {}
+    for i in range(1, len(tasks)):
+        if draw(st.sampled_from(range(p_fail_den))) == 0:
+            oc[str(i)] = draw(st.sampled_from([{"exit": 10 + i}, {"exit": 10 + i}, {"signal": 9}, {"launch": "eagain"}, {"launch": "enoent"}]))
+    case["outcomes"] = oc
+    tlen = draw(st.sampled_from([0, 10, 20, 40, tape_max]))
+    case["tape"] = draw(st.lists(st.sampled_from([0] * (2 * tape_hi) + list(range(1, tape_hi + 1))),
+                                 min_size=tlen, max_size=tlen))
+    case["foreign"] = 0
+    return case
+
+
 def expected_code(outcome):
     """The number Conductor reports for a failed task (exit code, or signal number)."""
     if "signal" in outcome:
